@@ -2,10 +2,11 @@
    Imports only core-Lean model files, so it links as a native executable. -/
 import Prs.Driver.Search
 import Prs.Driver.Stats
+import Prs.Driver.Misc
 open Lean Prs.Drv
 
 def dispatch (op : String) (j : Json) : Option (R Json) :=
-  (opSearch op j) <|> (opStats op j)
+  (opSearch op j) <|> (opStats op j) <|> (opMisc op j)
 
 def step (line : String) : String :=
   match Json.parse line with
